@@ -279,6 +279,9 @@ def _finish_call(call: dict) -> dict:
                      "path": r["path"], "ctype": r["ctype"], "result": copy.deepcopy(r.get("result"))})
         if r["response"] == 200 and r.get("result") is not None:
             last_ok = r["result"]
+    sa = call.get("server_after")
+    if sa is None or (sa["clock"], sa["uids"]) != prev_state:
+        interleaved = True          # … or after the last request, before the call returned
     out["reqs"] = reqs
     out["interleaved"] = interleaved
     return out
@@ -551,9 +554,8 @@ def evaluate(ctx: Ctx, scenarios: list[dict], tie: bool = True) -> None:
     reqs, obs = [], []
     for sc, res in zip(scenarios, results):
         if res.get("stall"):
-            ctx.oracle_fail("the simulation stalled (a coroutine spins without suspending)", {"kind": "closed-loop", "scenario": sc, "stderr": res.get("stderr", "")[-2000:]},
-                            {"site": "simulation", "shape": "stall"})
-            continue
+            # liveness is not C08's subject: a stalled simulation is a harness-level failure (exit 2)
+            raise RuntimeError(f"closed-loop simulation stalled: {json.dumps(sc)[:1500]}\n{res.get('stderr', '')[-3000:]}")
         if "trace" not in res:
             raise RuntimeError(f"closed-loop simulation failed: {str(res)[:3000]}")
         tr = res["trace"]
